@@ -2,6 +2,7 @@ package broker
 
 import (
 	"fmt"
+	"net"
 	"sort"
 	"strings"
 
@@ -43,7 +44,14 @@ func c17stream(c *core.Ctx) {
 		"tiny":       {1, 2, 3, 5, 8, 13, 21, 34, 55, 89, 144, 233},
 	}
 	names := []string{"mixed", "decreasing", "increasing", "primes", "tiny"}
-	for ni, pn := range names {
+	// each pattern twice: with a reader that takes every message at once, and with a slow
+	// reader behind a 700-byte pipe that reads only when the writer is stuck (the ring is
+	// full whenever a packet wraps)
+	var runs []string
+	for _, n := range names {
+		runs = append(runs, n, n+"/slow-reader")
+	}
+	for ni, pn := range runs {
 		if c.NShards > 1 && ni%c.NShards != c.Shard {
 			continue
 		}
@@ -53,7 +61,8 @@ func c17stream(c *core.Ctx) {
 		if c.Expired() || c.HasViolation() {
 			return
 		}
-		sizes := patterns[pn]
+		slow := strings.HasSuffix(pn, "/slow-reader")
+		sizes := patterns[strings.TrimSuffix(pn, "/slow-reader")]
 		laps := 4
 		if c.Thorough() {
 			laps = 12
@@ -67,7 +76,12 @@ func c17stream(c *core.Ctx) {
 				vsched.Failf("harness: %v", err)
 				return
 			}
-			cconn, _ := vnet.Dial("tcp", addr)
+			var cconn net.Conn
+			if slow {
+				cconn, _ = vnet.DialCap(addr, 700, 0)
+			} else {
+				cconn, _ = vnet.Dial("tcp", addr)
+			}
 			sconn, _ := ln.Accept()
 			peer, err := service.VerifNewPeer(cconn, true, 16384, 600, "peer", nil)
 			if err != nil {
@@ -77,26 +91,65 @@ func c17stream(c *core.Ctx) {
 			rd := &RawClient{Name: "reader", Conn: sconn, vc: sconn.(*vnet.Conn), pendRel: map[uint16]bool{}}
 			sent := 0
 			k := 0
-			for sent < laps*16384 {
-				n := sizes[k%len(sizes)]
-				m := message.NewPublishMessage()
-				m.SetTopic([]byte("s"))
-				m.SetPayload([]byte(fmt.Sprintf("%06d:%s", k, big(n, byte(k)))))
-				if err := peer.Publish(m, nil); err != nil {
-					vsched.Failf("publish %d failed: %v", k, err)
-					return
+			if slow {
+				total := 0
+				for total < laps*16384 {
+					n := sizes[k%len(sizes)]
+					total += n + 20
+					k++
 				}
-				sent += m.Len()
-				k++
-				for i := 0; i < 32; i++ {
+				nmsg := k
+				done := false
+				vsched.Go("writer", func() {
+					for i := 0; i < nmsg; i++ {
+						n := sizes[i%len(sizes)]
+						m := message.NewPublishMessage()
+						m.SetTopic([]byte("s"))
+						m.SetPayload([]byte(fmt.Sprintf("%06d:%s", i, big(n, byte(i)))))
+						if err := peer.Publish(m, nil); err != nil {
+							vsched.Failf("publish %d failed: %v", i, err)
+							return
+						}
+					}
+					done = true
+				})
+				// read only when nothing moves any more: the writer is parked on a full ring
+				for i := 0; i < 400000; i++ {
 					vsched.Quiesce()
 					if !rd.pump() {
-						break
+						if done {
+							break
+						}
+						vsched.Failf("nothing moves although the writer has %d messages to go", nmsg-len(rd.Packets))
+						return
+					}
+					if rd.Bad != "" {
+						vsched.Failf("after %d packets: %s", len(rd.Packets), rd.Bad)
+						return
 					}
 				}
-				if rd.Bad != "" {
-					vsched.Failf("after message %d (%d payload bytes, %d bytes written in all): %s", k-1, n, sent, rd.Bad)
-					return
+			} else {
+				for sent < laps*16384 {
+					n := sizes[k%len(sizes)]
+					m := message.NewPublishMessage()
+					m.SetTopic([]byte("s"))
+					m.SetPayload([]byte(fmt.Sprintf("%06d:%s", k, big(n, byte(k)))))
+					if err := peer.Publish(m, nil); err != nil {
+						vsched.Failf("publish %d failed: %v", k, err)
+						return
+					}
+					sent += m.Len()
+					k++
+					for i := 0; i < 32; i++ {
+						vsched.Quiesce()
+						if !rd.pump() {
+							break
+						}
+					}
+					if rd.Bad != "" {
+						vsched.Failf("after message %d (%d payload bytes, %d bytes written in all): %s", k-1, n, sent, rd.Bad)
+						return
+					}
 				}
 			}
 			if len(rd.rx) > 0 {
@@ -479,7 +532,7 @@ func c17wrap(c *core.Ctx) {
 
 // C17: whole packets, per-publisher order.
 func C17(c *core.Ctx) {
-	c.Rep.Bound = "(stream, default schedule) one writer, five size patterns, 4 (quick) / 12 (thorough) laps round the outgoing ring; SCHED: (narrow) 2-3 goroutines publishing 1-2 messages each through one service peer whose out ring was pre-rolled so that a packet wraps, all interleavings for one message per goroutine, <= 2 (quick) / 3 (thorough) preemptions otherwise; (broker) 2 raw publishers x 1-3 messages at QoS 0/1/2 to 2 subscribers through the real broker, every schedule that deviates from the default (run-until-blocked, lowest thread first) schedule at <= 1 (quick) / 2 (thorough) scheduling points, after a default-schedule set-up"
+	c.Rep.Bound = "(stream, default schedule) one writer, five size patterns, 4 (quick) / 12 (thorough) laps round the outgoing ring, each with a prompt reader and with a slow reader behind a 700-byte pipe (every wrap happens on a full ring); SCHED: (narrow) 2-3 goroutines publishing 1-2 messages each through one service peer whose out ring was pre-rolled so that a packet wraps, all interleavings for one message per goroutine, <= 2 (quick) / 3 (thorough) preemptions otherwise; (broker) 2 raw publishers x 1-3 messages at QoS 0/1/2 to 2 subscribers through the real broker, every schedule that deviates from the default (run-until-blocked, lowest thread first) schedule at <= 1 (quick) / 2 (thorough) scheduling points, after a default-schedule set-up"
 	c.Rep.Rule = "oracle at quiescence: every connection's byte stream parses under the strict reference codec into whole packets, each message arrives exactly once with intact topic and payload, and the sequence numbers of each publisher arrive in order at each subscriber"
 	c17stream(c)
 	if c.HasViolation() || c.Expired() {
